@@ -69,7 +69,7 @@ def _triple(xml, e, text=None):
         if node and attr and any(a.tag.split('}')[-1] == 'meta' for a in node[0].iterancestors()):
             kind = 'meta-' + kind
         # ... and an attribute whose value stands nowhere in the text (`{name value}`, a link target, an image source) is not the author's either
-        elif node and attr and text is not None and node[0].get(attr) is not None and (node[0].get(attr).strip() == '' or node[0].get(attr).strip() not in text):
+        elif node and attr and text is not None and node[0].get(attr) is not None and ((node[0].get(attr).strip() == '' and not re.search(r'[{|]\s*' + re.escape(attr) + r'\s*[|}]', text)) or node[0].get(attr).strip() not in text):
             kind = 'changed-' + kind
     except Exception:
         pass
